@@ -138,6 +138,56 @@ pub fn check_c01(bytes: &[u8], s: &NormalizerSettings, ms: &CharsetMatches) -> V
     out
 }
 
+/// C18: every reported name is canonical, usable (include list, lookup by name) and names the codec detection used:
+/// the PUBLIC decode helper given that name reproduces the match's text; its alias list is available
+pub fn check_c18(bytes: &[u8], s: &NormalizerSettings, ms: &CharsetMatches, deep: bool) -> Vec<Found> {
+    let mut out = vec![];
+    if bytes.is_empty() {
+        return out;
+    }
+    for m in ms.iter() {
+        let text = m.decoded_payload();
+        for e in m.suitable_encodings() {
+            match catch(|| iana_name(&e).map(|x| x.to_string())) {
+                Some(Some(c)) if c == e => {}
+                other => out.push(v("C18", format!("reported name {} does not canonicalise to itself: {:?}", e, other))),
+            }
+            match catch(|| ms.get_by_encoding(&e).map(|x| x.encoding().to_string())) {
+                Some(Some(_)) => {}
+                other => out.push(v("C18", format!("lookup by the reported name {} finds nothing: {:?}", e, other))),
+            }
+            if catch(|| m.encoding_aliases().len()).is_none() {
+                out.push(v("C18", format!("alias list of {} panics", m.encoding())));
+            }
+            // the helper, given the reported name, on the input minus that encoding's own mark
+            let stripped = strip_mark(bytes, &e);
+            match catch(|| decode(stripped, &e, DecoderTrap::Strict, false, false)) {
+                Some(Ok(t)) => {
+                    if Some(t.as_str()) != text {
+                        out.push(v("C18", format!("decode(input, {:?}) does not reproduce the text of match {} (lengths {} vs {:?})", e, m.encoding(), t.len(), text.map(|x| x.len()))));
+                    }
+                }
+                Some(Err(err)) => out.push(v("C18", format!("decode(input, {:?}) fails for a reported name of match {}: {}", e, m.encoding(), err))),
+                None => out.push(v("C18", format!("decode(input, {:?}) panics", e))),
+            }
+            // accepted back by the include list: a run restricted to that name does not return the unknown-name error
+            if deep {
+                let mut r = s.clone();
+                r.include_encodings = vec![e.clone()];
+                r.exclude_encodings = vec![];
+                if let Outcome::Err(msg) = run_real(bytes, &r) {
+                    out.push(v("C18", format!("reported name {} is rejected by the include list: {}", e, msg)));
+                }
+            }
+        }
+    }
+    out
+}
+
+fn catch<T>(f: impl FnOnce() -> T) -> Option<T> {
+    std::panic::catch_unwind(std::panic::AssertUnwindSafe(f)).ok()
+}
+
 fn is_fallback_shape(bytes: &[u8], s: &NormalizerSettings, ms: &CharsetMatches) -> bool {
     if ms.len() != 1 || !s.enable_fallback {
         return false;
